@@ -11,7 +11,8 @@ FLIP_MOD = ["CTRL-ALT", "CTRL-SHIFT", "ALT-SHIFT", "ALT-GUI", "GUI-SHIFT"]
 UNKNOWN = ["FOO", "STRNG", "DELAYY", "HOLD", "RELEASE", "WAIT_FOR_BUTTON_PRESS", "ATTACKMODE", "DEFINE", "STRING_DELAY",
            "LED_R", "xyzzy", "ALTT", "AL", "ÉCRIRE", "ſtring2", "IF", "WHILE", "FUNC", "ELSE", "IGNORE", "REMOTE", "REM_BLOCK", "remap", "STRINGS", "DELAY_MS"]
 CHARS = list("abcxyzABZ019 !#%&*+,-./:;<=>?@[]^_{|}~()\"'$\\") + ["é", "ß", "ǆ", "İ", "ı", "λ", "Ж", "中", "😀", " ", "٣", "²", "½", " "] + \
-    ["\x0b", "\x0c", "\x1c", "\x1d", "\x1e", "\x85", "\u2028", "\u2029", "\r"]   # str.splitlines() breaks at these, split("\n") does not
+    ["\x0b", "\x0c", "\x1c", "\x1d", "\x1e", "\x85", "\u2028", "\u2029"]   # str.splitlines() breaks at these, split("\n") does not (CR too, but a CR in a
+# file is a line end for Python's text-mode read, so string and file twins of a text would differ: CR appears in explicit string-entry cases only)
 NAMES = ["a", "b", "i", "j", "n", "x", "count", "ab", "abc", "a1", "_t", "idx", "Tx", "FAL", "hello", "hell"]
 OPS_MATH = ["+", "-", "*", "/", "//", "%", "^"]
 OPS_COND = ["==", "!=", "<", ">", "<=", ">="]
